@@ -55,6 +55,7 @@ def run(tier, seed, replay=None):
         return dict(pardim=cx['pardim'], dim=cx['dim'], kind=cx['kind'], cells=[list(c) for c in cx['cells']],
                     patches=[O.spec_json(O.snapshot(p)) for p in cx['patches']])
 
+    cat_cases = []
     # ---------------------------------------------------------------- complexes: node counts, neighbours, boundary, lookup
     for it in range(reps):
         pd = rng.choice([1, 2, 2, 3, 3])
@@ -83,6 +84,36 @@ def run(tier, seed, replay=None):
         if len(samples) < 2 and pd == 3 and len(cx['patches']) > 2:
             samples.append(dict(op='complex', kind=cx['kind'], cells=args['cells'], pardim=pd))
         got = {d: len(model.catalogue.nodes(d)) for d in range(pd + 1)}
+        # abstract catalogue (Model/Catalogue.v) on the same patches in the same order: every patch by the vertex
+        # identifiers of its 2^pardim corners (direction 0 fastest), vertices identified geometrically
+        try:
+            vid = {}
+
+            def corner_ids(o_):
+                cp_ = np.asarray(o_.controlpoints, dtype=float)[..., :o_.dimension]
+                if o_.rational:
+                    cp_ = cp_ / np.asarray(o_.controlpoints, dtype=float)[..., -1:]
+                ids = []
+                for bits in itertools.product([0, -1], repeat=o_.pardim):     # last direction fastest here ...
+                    pass
+                for j in range(2 ** o_.pardim):
+                    idx = tuple(-1 if (j >> k_) & 1 else 0 for k_ in range(o_.pardim))
+                    key_ = tuple(int(round(v_ * 1e6)) for v_ in cp_[idx])
+                    ids.append(vid.setdefault(key_, len(vid)))
+                return ids
+            added = [n_.obj for n_ in model.catalogue.nodes(pd)] if False else list(cx['patches'])
+            plist_ = [corner_ids(p_) for p_ in added]
+            impl_faces = []
+            for n_ in model.catalogue.nodes(pd - 1):
+                impl_faces.append((sorted(set(corner_ids(n_.obj))), sorted(sorted(set(corner_ids(h_.obj))) for h_ in n_.higher_nodes.get(pd, []))))
+            impl_bnd = sorted(sorted(set(corner_ids(n_.obj))) for n_ in model.boundary())
+            # the abstract model identifies an entity with its set of corner vertices: exact for complexes in which distinct
+            # entities have distinct corner sets (lattice complexes); ring complexes (a patch meeting itself, two patches
+            # sharing all four corners) are outside it and stay with the L2 counts above
+            if not ring:
+                cat_cases.append((args, pd, plist_, [got[d_] for d_ in range(pd + 1)], sorted(impl_faces), impl_bnd, ring))
+        except Exception as e:  # noqa
+            fail('catalogue', args, 'collecting the node graph raised %s' % type(e).__name__)
         if got != cx['expected']:
             fail('node counts', args, 'node counts %s differ from the cell complex %s' % (got, cx['expected']))
             continue
@@ -301,6 +332,21 @@ def run(tier, seed, replay=None):
 
     # ---------------------------------------------------------------- L1: Orientation.compute vs the extracted model
     corr_bad = C.Corr()
+    # ---- L1: the node graph vs the abstract catalogue model
+    clines = ['catalogue %d %d %s' % (pd_, len(pl_), ' '.join('%d %s' % (len(c_), ' '.join(map(str, c_))) for c_ in pl_)) for (_, pd_, pl_, _, _, _, _) in cat_cases]
+    couts = C.run_model(clines) if clines else []
+    for tk, (a_, pd_, pl_, counts_, faces_, bnd_, ring_) in zip(couts, cat_cases):
+        mcounts = tk.ilist()
+        mbnd = sorted(sorted(x_) for x_ in tk.list(tk.ilist))
+        mfaces = sorted((sorted(k_), sorted(sorted(h_) for h_ in hs_)) for k_, hs_ in tk.list(lambda: (tk.ilist(), tk.list(tk.ilist))))
+        dist['op']['catalogue vs model'] = dist['op'].get('catalogue vs model', 0) + 1
+        if mcounts != counts_:
+            corr_bad += {'what': 'L1: node counts %s, the catalogue model %s' % (counts_, mcounts), 'op': 'catalogue', 'args': a_}
+        elif mbnd != bnd_:
+            corr_bad += {'what': 'L1: boundary() is %s, the catalogue model %s (corner vertex sets)' % (bnd_[:6], mbnd[:6]), 'op': 'catalogue', 'args': a_}
+        elif mfaces != faces_:
+            corr_bad += {'what': 'L1: interfaces and their higher neighbours differ from the catalogue model', 'op': 'catalogue', 'args': a_,
+                         'impl': faces_[:8], 'model': mfaces[:8]}
     lines = []
     atol = C.fr(state.controlpoint_absolute_tolerance)
     for spec, sb, ori in l1[: (150 if tier == 'quick' else 100000)]:
